@@ -113,6 +113,23 @@ HttpHdrCc::setValue(int32_t &value, int32_t new_value, HttpHdrCcType hdr, bool s
     setMask(hdr,setting);
 }
 
+/// Parses a delta-seconds directive argument (RFC 9111 section 1.2.2: 1*DIGIT)
+/// that ends where the list item ends. Rejects signs, whitespace, and trailing
+/// garbage that strtol()-based parsing would otherwise accept.
+static bool
+ParseDeltaSeconds(const char * const arg, const int argLen, int32_t &value)
+{
+    if (!arg || argLen <= 0)
+        return false;
+
+    for (int i = 0; i < argLen; ++i) {
+        if (!xisdigit(arg[i]))
+            return false;
+    }
+
+    return httpHeaderParseInt(arg, &value); // also rejects out-of-range values
+}
+
 bool
 HttpHdrCc::parse(const String & str)
 {
@@ -149,7 +166,7 @@ HttpHdrCc::parse(const String & str)
         switch (type) {
 
         case HttpHdrCcType::CC_MAX_AGE:
-            if (!p || !httpHeaderParseInt(p, &max_age) || max_age < 0) {
+            if (!ParseDeltaSeconds(p, ilen - nlen - 1, max_age)) {
                 debugs(65, 2, "cc: invalid max-age specs near '" << item << "'");
                 clearMaxAge();
             } else {
@@ -158,7 +175,7 @@ HttpHdrCc::parse(const String & str)
             break;
 
         case HttpHdrCcType::CC_S_MAXAGE:
-            if (!p || !httpHeaderParseInt(p, &s_maxage) || s_maxage < 0) {
+            if (!ParseDeltaSeconds(p, ilen - nlen - 1, s_maxage)) {
                 debugs(65, 2, "cc: invalid s-maxage specs near '" << item << "'");
                 clearSMaxAge();
             } else {
@@ -167,7 +184,7 @@ HttpHdrCc::parse(const String & str)
             break;
 
         case HttpHdrCcType::CC_MAX_STALE:
-            if (!p || !httpHeaderParseInt(p, &max_stale) || max_stale < 0) {
+            if (!ParseDeltaSeconds(p, ilen - nlen - 1, max_stale)) {
                 debugs(65, 2, "cc: max-stale directive is valid without value");
                 maxStale(MAX_STALE_ANY);
             } else {
@@ -176,7 +193,7 @@ HttpHdrCc::parse(const String & str)
             break;
 
         case HttpHdrCcType::CC_MIN_FRESH:
-            if (!p || !httpHeaderParseInt(p, &min_fresh) || min_fresh < 0) {
+            if (!ParseDeltaSeconds(p, ilen - nlen - 1, min_fresh)) {
                 debugs(65, 2, "cc: invalid min-fresh specs near '" << item << "'");
                 clearMinFresh();
             } else {
@@ -185,7 +202,7 @@ HttpHdrCc::parse(const String & str)
             break;
 
         case HttpHdrCcType::CC_STALE_IF_ERROR:
-            if (!p || !httpHeaderParseInt(p, &stale_if_error) || stale_if_error < 0) {
+            if (!ParseDeltaSeconds(p, ilen - nlen - 1, stale_if_error)) {
                 debugs(65, 2, "cc: invalid stale-if-error specs near '" << item << "'");
                 clearStaleIfError();
             } else {
